@@ -386,7 +386,10 @@ def parseOp (parts : List String) (pjHist : Array (JFile PatchesState)) (sjHist 
     let k ← k.toNat?
     match sjHist.back?, sjHist[k]? with
     | some (.ok cur), some (.ok old) =>
-      pure (.damage (.sjSet { cur with events := (cur.events ++ old.events) ++ (cur.events ++ old.events) }))
+      -- events of another release are never merged in (the harness leaves the file alone then)
+      if cur.version = old.version then
+        pure (.damage (.sjSet { cur with events := (cur.events ++ old.events) ++ (cur.events ++ old.events) }))
+      else pure (.damage .nop)
     | some _, some (.ok _) => pure (.damage .nop)
     | _, _ => none
   | ["dmg", "nop"] => some (.damage .nop)
